@@ -83,12 +83,13 @@ theorem parseVersion_strict (rarms : List Arm) (o : OT) (more : List OT) (major 
       (match versionOf major minor with
         | some v => (pure v : PM Nat)
         | none => do errorOrLogNoLine .invalidVersion; pure 6) c.e { s2 with pos := 0 } := by
+    have hat1 : c.e.toks[s1.pos - 1]? = c.e.toks[s.pos]? := by rw [a1.pos]; rfl
     unfold parseVersion
     simp only [getEnv_bind, peekToken_bind, hat0]
     rw [bind_def]
     unfold attempt
     rw [e1]
-    simp only [WTok.toPTok, if_true, hsym, beq_self_eq_true]
+    simp only [getState_bind, hat1, hat0, WTok.toPTok, if_true, hsym, beq_self_eq_true]
     rw [bind_def, parseType_block_unfold f _ _ 0 c.e s1 hl]
     unfold typeBody
     rw [bind_def, e2]
@@ -135,7 +136,7 @@ theorem parseVersion_other (rarms : List Arm) (i : Nat) (tag : List Char) (blk :
     unfold parseVersion
     simp only [getEnv_bind, peekToken_bind, hat0]
     rw [bind_def, h1]
-    simp only [Bool.false_eq_true, if_false, setTokenpos_bind]
+    simp only [getState_bind, Bool.false_eq_true, if_false, setTokenpos_bind]
     rw [bind_def, hE]
     rfl
   | false =>
@@ -148,9 +149,10 @@ theorem parseVersion_other (rarms : List Arm) (i : Nat) (tag : List Char) (blk :
     unfold parseVersion
     simp only [getEnv_bind, peekToken_bind, hat0]
     rw [bind_def]
+    have hat1 : c.e.toks[s1.pos - 1]? = c.e.toks[s.pos]? := by rw [a1.pos]; rfl
     unfold attempt
     rw [e1]
-    simp only [WTok.toPTok, if_true, hsym, Bool.false_eq_true, if_false, setTokenpos_bind]
+    simp only [getState_bind, hat1, hat0, WTok.toPTok, if_true, hsym, Bool.false_eq_true, if_false, setTokenpos_bind]
     rw [bind_def, hE]
     rfl
 
